@@ -251,17 +251,15 @@ Example C16_example :
   end.
 Proof. vm_compute. split; reflexivity. Qed.
 
-(* ---- wave 7: the two known findings about rows WITHOUT a displayable character, as closed facts about the decoder model
+(* ---- wave 7: the two known findings about rows WITHOUT a displayable character, as Examples (single closed streams, vm_compute) about the decoder model
    (known_findings.d/C16-gap-after-empty-row.json, C16-blank-only-row.json; the harness reproduces both against the real
    reader on every run). The chain clause "each caption ends exactly when the next one begins" FAILS on these well-formed
    streams: a gap after a paint-on passage of null padding; a caption left with end 0 (start > end) before a roll-up row of
    blanks ----------------------------------------------------------------------------------------------------------- *)
 From PV Require Import proofs.SccRollPaintFindingFacts.
-Theorem C16_gap_after_empty_row_refuted : exists s1 e1 s2 e2,
+Example C16_gap_after_empty_row_refuted : exists s1 e1 s2 e2,
   spans_of (read 0 gap_witness) = Ok [(s1, e1); (s2, e2)] /\ (s1 < e1)%Q /\ (e1 < s2)%Q.
 Proof. exact gap_after_empty_row_refuted. Qed.
-Print Assumptions C16_gap_after_empty_row_refuted.
-Theorem C16_blank_only_row_refuted : exists s1 e1 s2 e2,
+Example C16_blank_only_row_refuted : exists s1 e1 s2 e2,
   spans_of (read 0 blank_row_witness) = Ok [(s1, e1); (s2, e2)] /\ (0 < s1)%Q /\ (e1 == 0)%Q /\ (s1 < s2)%Q.
 Proof. exact blank_only_row_refuted. Qed.
-Print Assumptions C16_blank_only_row_refuted.
